@@ -5,8 +5,8 @@ import json, subprocess
 def conv(typ, what):
     return dict(category="exploration", design="DESIGN.md §2, §3",
       technique="runtime monitoring: reference-model monitor executing the script emitted by the real drc, semantic equivalence + second compare oracle",
-      text=f"Seeded (device, target) pairs for {typ} ({what}) are fed to the real drc; the printed script is executed command by command on an independent device model; the resulting state must be semantically equivalent to the target, a second compare of the dumped model must be empty and 'device unchanged' is only accepted for equivalent devices; a command the model refuses under the rules of C08 and a tool crash on a valid pair count as not converged. PAN-OS and NSX: every 8th pair is a complete live approve against the HTTPS simulator backed by the model. quick 1500 pairs, thorough 40000.",
-      note="Device semantics are those of the model (written from CLI/API documentation, Appendix A of DESIGN.md); the generators cover the edit operations listed in the evidence rule; unmodelled commands make a case inconclusive. Generators were extended after each of seven rounds of seeded changes (DESIGN.md 8.4).")
+      text=f"Seeded (device, target) pairs for {typ} ({what}) are fed to the real drc; the printed script is executed command by command on an independent device model; the resulting state must be semantically equivalent to the target, a second compare of the dumped model must be empty and 'device unchanged' is only accepted for equivalent devices; a command the model refuses under the rules of C08 and a tool crash on a valid pair count as not converged. PAN-OS and NSX: every 8th pair is a complete live approve against the HTTPS simulator backed by the model; ASA and IOS: every 8th pair is a complete live approve (drc / do-approve) through the CLI simulator backed by the model, judged on the commands the simulator received, followed by a live compare that must be clean. quick 1500 pairs, thorough 40000.",
+      note="Device semantics are those of the model (written from CLI/API documentation, Appendix A of DESIGN.md); the generators cover the edit operations listed in the evidence rule; unmodelled commands make a case inconclusive. Generators were extended after each of eight rounds of seeded changes (DESIGN.md 8.4).")
 
 CLAIMED = {
  "C20": dict(
@@ -89,7 +89,7 @@ CLAIMED.update({
    note="Kernel spelling is limited to the option set of the model's printer; both spellings are printed from one semantic value."),
  "C07": dict(category="exploration", design="DESIGN.md §3 C07",
    technique="runtime monitoring: frame monitor on the unmanaged projection of the device model after every executed command",
-   text="Pairs from the convergence generators with an unmanaged layer (ASA/IOS: manual ACLs and groups, interface unknown to Netspoc with bound ACL, unmanaged group-policy, snmp/ntp/logging/aaa-server/policy-map lines, unmanaged VRF routes; PAN-OS: foreign vsys and shared objects; NSX: objects without Netspoc prefix incl. ids that contain the prefix elsewhere, differ in case or extend it; ASA additionally left-over -DRC- objects that hand-made configuration still references over two levels and an unmanaged interface with in/out ACLs and a crypto map) are executed on the models, every 4th PAN-OS/NSX pair as a complete live approve against the simulator backed by the model; a delete the model refuses is replayed on a permissive twin and every live write is judged by the id it addresses (attempts count); the unmanaged projection must be identical after every command.",
+   text="Pairs from the convergence generators with an unmanaged layer (ASA/IOS: manual ACLs and groups, interface unknown to Netspoc with bound ACL, unmanaged group-policy, snmp/ntp/logging/aaa-server/policy-map lines, unmanaged VRF routes; PAN-OS: foreign vsys and shared objects; NSX: objects without Netspoc prefix incl. ids that contain the prefix elsewhere, differ in case or extend it; ASA additionally left-over -DRC- objects that hand-made configuration still references over two levels and an unmanaged interface with in/out ACLs and a crypto map) are executed on the models, every 4th PAN-OS/NSX pair and every 8th ASA/IOS pair as a complete live approve against the simulator backed by the model; a delete the model refuses is replayed on a permissive twin and every live write is judged by the id it addresses (attempts count); the unmanaged projection must be identical after every command.",
    note="Unmanaged content is what the generator adds; names carry fixed markers so the projection is exact."),
  "C08": dict(category="exploration", design="DESIGN.md §3 C08",
    technique="runtime monitoring: device models that reject exactly the five rule classes of the statement while executing the emitted script in order",
